@@ -124,6 +124,9 @@ func detBundle(rng *rand.Rand) *jBundle {
 		"extend google.protobuf.ServiceOptions {\n  string verif_svc = 51001;\n}\n\n" +
 		"extend google.protobuf.MethodOptions {\n  string verif_method = 51001;\n}\n\n" +
 		"// uses them\nmessage ExtrasUser {\n  option (verif_msg_note) = \"noted\";\n\n  string a = 1 [\n    (verif_note) = \"n\",\n    (verif_rank) = 2\n  ];\n\n  enum Kind {\n    option (verif_flag) = true;\n\n    KIND_UNSPECIFIED = 0;\n  }\n}\n"
+	// a stale copy of a generated file that was committed beside its source: the file source lists it, the
+	// compiler is expected to keep ignoring it whatever the listing order
+	b.Protos[f.Path+".proto"] = "syntax = \"proto3\";\n\npackage " + f.Pkg + ";\n\n// left over from an earlier build\nmessage StaleLeftover {\n  string was_here = 1;\n}\n"
 	return b
 }
 
@@ -284,6 +287,65 @@ func runC14(r *rt.Runner) {
 			}
 			r.Note(fmt.Sprintf("xproc:c14-bundle-%02d", i), strings.Join(parts, " "))
 		}
+	})
+	// --- "what else was compiled earlier in the same process": two versions of a package with the same type
+	// names but different nesting, so that the text of a reference depends on the version; compiled and
+	// printed in alternation, and in opposite order in odd and even worker processes
+	r.DoAll("earlier-compiles", func(c *rt.C) {
+		version := func(nestedFoo bool, twist string) *jBundle {
+			nestedName := "Bar"
+			if nestedFoo {
+				nestedName = "Foo"
+			}
+			return elemsBundle(
+				objDecl("Foo", fld("name", tScalar(kString))),
+				enumDecl("Kind", "ONE", "TWO"),
+				objDecl("Outer",
+					fld("ref", tRef(kObject, "Foo", "iso.v1.Foo")),
+					fld("refs", tArr(tRef(kObject, "Foo", "iso.v1.Foo"))),
+					fld("kind", tRef(kEnum, "Kind", "iso.v1.Kind")),
+					fld("inner", &jT{Kind: kObject, InlineName: nestedName, Inline: &jDecl{Kind: kObject, Fields: []*jF{fld("x", tScalar(kString)), fld(twist, tScalar(kBool))}}})))
+		}
+		versions := []*jBundle{version(true, "alpha"), version(false, "alpha"), version(true, "beta"), version(false, "beta")}
+		order := []int{0, 1, 2, 3, 1, 0, 3, 2, 0}
+		if r.Cfg.Shard%2 == 1 {
+			order = []int{1, 0, 3, 2, 0, 1, 2, 3, 1}
+		}
+		first := map[int]map[string]c14Digest{}
+		for step, vi := range order {
+			b := versions[vi]
+			src := b.sources()
+			got, err := c14Compile(newMemBundle(src), b.packages(), false, nil)
+			if err != nil {
+				c.Feature("c14:compile-failed/earlier-compiles/" + errSig(err))
+				return
+			}
+			c.Eval(rt.Hash("earlier", fmt.Sprint(step, vi)), true)
+			c.Event("configurations_compiled")
+			if first[vi] == nil {
+				first[vi] = got
+				continue
+			}
+			for k, d := range got {
+				if d.desc != first[vi][k].desc {
+					c.Violate("nondeterministic/descriptor/after-other-version", fmt.Sprintf("%s of version %d compiles to different descriptors once other versions of the package were compiled in the process", k, vi), srcDetail(src))
+				}
+				if d.text != first[vi][k].text {
+					det := srcDetail(src)
+					det["first"], det["later"] = first[vi][k].rawText, d.rawText
+					c.Violate("nondeterministic/text/after-other-version", fmt.Sprintf("%s of version %d prints differently once other versions of the package were compiled in the process: %s", k, vi, firstDiff(first[vi][k].rawText, d.rawText)), det)
+				}
+			}
+		}
+		// and across processes, which ran the versions in opposite orders
+		for vi := range versions {
+			var parts []string
+			for _, k := range rt.SortedKeys(first[vi]) {
+				parts = append(parts, k+"="+first[vi][k].text[:12])
+			}
+			r.Note(fmt.Sprintf("xproc:c14-earlier-version-%d", vi), strings.Join(parts, " "))
+		}
+		c.Feature("c14:earlier-compiles")
 	})
 	for _, cell := range isolationMatrix() {
 		cell := cell
